@@ -76,6 +76,12 @@ func init() {
 }
 
 var checks = map[string]*Check{
+	"C15": {ID: "C15", Parts: []Part{{Harness: "sio", Func: "C15"}}, Category: "model_checking", QuickDeadline: 240, ThoroughDeadline: 1500,
+		Engine: "E1", DesignRef: "6/C15",
+		Technique: "explicit-state breadth-first search over crew-operation histories on the real sio.Crew (successor = replay on a fresh crew; states deduplicated by a canonical key) with a shadow-store invariant in every state and a reboot differential on continuations",
+		LevelText: "Every reachable state (up to the history bound) of a real crew driven by create / replace-state / replace-spec / delete / re-create operations and ordinary messages is visited; in each, a store that applied every reported change must equal the live crew, and a crew rebuilt from that store must behave like the original on all short continuations.",
+		LevelNote: "Trusted: the shadow fold (copied from sio.Stdio's consumer loop) and the canonical state key; machines whose reactions commute (as the property requires).",
+		Assumptions: commonAssumptions},
 	"C14": {ID: "C14", Parts: []Part{{Harness: "sio", Func: "C14sio"}}, Category: "model_checking", QuickDeadline: 240, ThoroughDeadline: 1500,
 		Engine: "E1+E2", DesignRef: "6/C14",
 		Technique: "exhaustive enumeration of crews x routing targets x emission scripts x message-history depth on the real crew hosts, under every machine-iteration order within a deviation bound (vrange), against a breadth-first reference router",
